@@ -24,7 +24,8 @@ PROOF_MODULES = ["PyTealV.Proofs.C02Spill", "PyTealV.Proofs.C02RecPoints", "PyTe
                  # whole-program code-generation theorem `genProg_correct` (Src.runProg vs the multi-routine graph machine)
                  "PyTealV.Proofs.C02GenMach", "PyTealV.Proofs.C02GenShape", "PyTealV.Proofs.C02GenPrim",
                  "PyTealV.Proofs.C02GenSem", "PyTealV.Proofs.C02GenSrc", "PyTealV.Proofs.C02GenCall",
-                 "PyTealV.Proofs.C02GenSpill", "PyTealV.Proofs.C02GenProg", "PyTealV.Proofs.C02GenPres", "PyTealV.Proofs.C02Gen",
+                 "PyTealV.Proofs.C02GenSpill", "PyTealV.Proofs.C02GenProg", "PyTealV.Proofs.C02GenPres", "PyTealV.Proofs.C02GenValid",
+                 "PyTealV.Proofs.C02Gen",
                  "PyTealV.Proofs.C02Compile"]
 TRUSTED = [
     "Lean 4 kernel; axioms propext, Classical.choice, Quot.sound only",
@@ -108,8 +109,10 @@ def run(tier: str) -> int:
                     if fpflag == 0:
                         cur_stage = kv.get("stage", "?")
                     if "stage" in kv:
-                        stats[f"genProg_correct:fp={fpflag}:stage={kv['stage']}:in_fragment={kv.get('renamed')}"
-                              + (":dynPartial=true" if kv.get("dynPartial") == "true" and kv.get("renamed") != "true" else "")] += 1
+                        infr = "true" if (kv.get("renamed") == "true" or kv.get("refStrict") == "true") else "false"
+                        stats[f"genProg_correct:fp={fpflag}:stage={kv['stage']}:in_fragment={infr}"
+                              + (":thm=ref" if kv.get("refStrict") == "true" and kv.get("renamed") != "true" else "")
+                              + (":dynPartial=true" if kv.get("dynPartial") == "true" and infr != "true" else "")] += 1
                     else:
                         stats["genProg_correct:" + fr[:40]] += 1
             if not case.ok:
@@ -133,7 +136,8 @@ def run(tier: str) -> int:
                 # do the hypotheses of the composed theorem `C02Compile.compile_correct_validated_prog`
                 # (certificate accepted + certificate graphs = generator's + renamed program in the fragment) hold?
                 comp = d.ask(f"composed-sexp {ver} {1 if fp else 0} {case.teal.encode().hex()} {case.sexp}")
-                stats[f"composed_theorem:fp={1 if fp else 0}:{comp.split(' ')[0]}:stage={cur_stage}"] += 1
+                stats[f"composed_theorem:fp={1 if fp else 0}:{comp.split(' ')[0]}:stage={cur_stage}"
+                      + (":thm=ref" if " thm=ref" in comp else "")] += 1
                 if bad is None and not verdict.startswith("valid"):
                     bad2 = exec_diff(case, r, 150 if tier == "quick" else 1500, stats)
                     if bad2 is None:
